@@ -133,7 +133,7 @@ fn cmd_run(args: &[String]) {
   let seed: u64 = arg_val(args, "--seed").and_then(|s| s.parse().ok()).unwrap_or(0);
   let jobs: usize = arg_val(args, "--jobs").and_then(|s| s.parse().ok()).unwrap_or(16);
   let out_path = arg_val(args, "--out").expect("--out");
-  let time_cap: f64 = arg_val(args, "--time-cap").and_then(|s| s.parse().ok()).unwrap_or(if thorough { 2400.0 } else { 420.0 });
+  let time_cap: f64 = arg_val(args, "--time-cap").and_then(|s| s.parse().ok()).unwrap_or(if thorough { 1500.0 } else { 600.0 });
 
   let hs: Vec<HarnessDef> = all_harnesses()
     .into_iter()
@@ -178,11 +178,22 @@ fn cmd_run(args: &[String]) {
       let mut is_idle = false;
       loop {
         if stop.load(Ordering::SeqCst) {
+          for j in local.drain(..) {
+            states[j.h].lock().unwrap().stats.budget_hit = true;
+          }
           break;
         }
         if t_start.elapsed().as_secs_f64() > time_cap {
+          // the time cap is a budget: whatever is still on the frontier stays unexplored and
+          // the harnesses concerned are reported as not exhaustive
           timed_out.store(true, Ordering::SeqCst);
           stop.store(true, Ordering::SeqCst);
+          for j in local.drain(..) {
+            states[j.h].lock().unwrap().stats.budget_hit = true;
+          }
+          for j in queue.lock().unwrap().drain(..) {
+            states[j.h].lock().unwrap().stats.budget_hit = true;
+          }
           break;
         }
         let job = if let Some(j) = local.pop() {
